@@ -1,4 +1,115 @@
-(* C05 - all navigation relations describe one and the same ordered tree.  (statements follow) *)
-From Coq Require Import List NArith Bool.
-From Delb.Tree Require Import ITree ANav.
-From Delb.Conc Require Import CTree CNav.
+(* C05 - all navigation relations describe one and the same ordered tree.
+   Statements only; every proof is `exact` of a lemma of Tree/ANavFacts.v or Conc/CNavFacts.v.
+
+   Subject of the theorems: Conc/CNav.v, the navigation routines modelled as the code walks over the object graph
+   (lxml slots + chains of text objects) of a concrete tree `c : cel` (Conc/CTree.v); tied to _delb/nodes.py and
+   _delb/utils.py by the correspondence part of harness/props/c05.py on every run.
+   `D` = ambient filter default_filters[-1], `F` = filters passed by the caller, both arbitrary predicates on identities.
+
+   COVERED by theorem (for every well-formed tree with unique identities, every node, every D and F; fuel proved
+   sufficient, i.e. the result is `Ok`, never OutOfFuel):
+     iterate_children, __len__, first_child, last_child, __getitem__ (int incl. negative and out of range, slices),
+     index (exact value for every D; = the abstract index for D = no filter), parent,
+     fetch_following_sibling, iterate_following_siblings, fetch_preceding_sibling, iterate_preceding_siblings,
+     iterate_descendants (explicit-stack loop = strict pre-order), traverse_df_ltr_ttb;
+     and on the plain tree: child exactly once at its index, parent <-> child, inverse siblings, descendants = pre-order
+     of the children relation, preceding ++ [n] ++ following = document order (partition, pairwise disjoint).
+   NOT covered by theorem (modelled in CNav.v and checked by correspondence + direct search on every run only):
+     see the list at the end of this file. *)
+From Coq Require Import List NArith ZArith Bool.
+From Delb.Base Require Import PyStr.
+From Delb.Tree Require Import ATree ITree ANav ANavFacts.
+From Delb.Conc Require Import CTree CNav CHeapFacts CWalkFacts CNavFacts.
+Import ListNotations.
+
+(* the abstraction keeps every object, in document order: identities of the plain tree = objects of the concrete one *)
+Theorem C05_same_nodes : forall c inh, el_ok c = true -> ids (abs_el inh c) = cel_ids c.
+Proof. exact abs_ids. Qed.
+Print Assumptions C05_same_nodes.
+
+(* the pointer primitives (one case per text state DATA / TAIL / APPENDED, chains walked to their end) *)
+Theorem C05_fetch_following_sibling_raw : forall c inh, el_ok c = true -> NoDup (cel_ids c) ->
+  forall n, In n (ids (abs_el inh c)) ->
+  c_next_raw (c_fuel_h (heap_top c)) (heap_top c) n = Ok (a_next_sibling (abs_el inh c) n).
+Proof. exact P_next. Qed.
+Print Assumptions C05_fetch_following_sibling_raw.
+Theorem C05_preceding_candidate : forall c inh, el_ok c = true -> NoDup (cel_ids c) ->
+  forall n, In n (ids (abs_el inh c)) ->
+  c_prev_cand (c_fuel_h (heap_top c)) (heap_top c) n = Ok (a_prev_sibling (abs_el inh c) n).
+Proof. exact P_prev. Qed.
+Print Assumptions C05_preceding_candidate.
+Theorem C05_parent : forall c inh, el_ok c = true -> NoDup (cel_ids c) ->
+  forall n, In n (ids (abs_el inh c)) ->
+  c_parent (c_fuel_h (heap_top c)) (heap_top c) n = Ok (a_parent (abs_el inh c) n).
+Proof. exact P_parent. Qed.
+Print Assumptions C05_parent.
+
+(* every routine below is a function of the ONE tree abs_el inh c: hence they agree with each other;
+   passing filters yields exactly the unfiltered sequence restricted to matching nodes *)
+Theorem C05_one_tree : forall c inh, el_ok c = true -> NoDup (cel_ids c) ->
+  forall D F n, In n (ids (abs_el inh c)) ->
+    c_iterate_children c D F n = Ok (filter (fand D F) (a_children (abs_el inh c) n))
+    /\ c_len c D n = Ok (length (filter D (a_children (abs_el inh c) n)))
+    /\ c_first_child c D n = Ok (hd_error (filter D (a_children (abs_el inh c) n)))
+    /\ c_last_child c D n = Ok (last_error (filter D (a_children (abs_el inh c) n)))
+    /\ (forall i, c_getitem c D n i = match py_index (filter D (a_children (abs_el inh c) n)) i with
+                                     | Some x => Ok x | None => Crash IndexError end)
+    /\ (forall a b, c_getslice c D n a b = Ok (py_slice (filter D (a_children (abs_el inh c) n)) a b))
+    /\ c_index c ftrue n = Ok (a_index (abs_el inh c) n)
+    /\ c_parent_of c n = Ok (a_parent (abs_el inh c) n)
+    /\ c_fetch_following_sibling c D F n = Ok (hd_error (filter (fand D F) (a_fsibs (abs_el inh c) n)))
+    /\ c_iterate_following_siblings c D F n = Ok (filter (fand D F) (a_fsibs (abs_el inh c) n))
+    /\ c_fetch_preceding_sibling c D F n = Ok (hd_error (filter (fand D F) (a_psibs (abs_el inh c) n)))
+    /\ c_iterate_preceding_siblings c D F n = Ok (filter (fand D F) (a_psibs (abs_el inh c) n))
+    /\ c_iterate_descendants c D F n = Ok (filter (fand D F) (a_descendants (abs_el inh c) n))
+    /\ c_traverse_df_ttb c D F n = Ok (n :: filter (fand D F) (a_descendants (abs_el inh c) n)).
+Proof. exact c_nav_one_tree. Qed.
+Print Assumptions C05_one_tree.
+
+(* index under an ambient filter: the position among the visible siblings; InvalidCodePath when the node is hidden *)
+Theorem C05_index_filtered : forall c inh, el_ok c = true -> NoDup (cel_ids c) ->
+  forall D n, In n (ids (abs_el inh c)) ->
+  c_index c D n = match a_parent (abs_el inh c) n with
+                  | None => Ok None
+                  | Some _ => match index_of n (filter D (a_siblings (abs_el inh c) n)) with
+                              | Some i => Ok (Some i)
+                              | None => Crash InvalidCodePath
+                              end
+                  end.
+Proof. exact c_index_abs. Qed.
+Print Assumptions C05_index_filtered.
+
+(* the relations of the one tree agree with each other (the statement of the property, on the plain tree) *)
+Theorem C05_consistency : forall t, NoDup (ids t) -> forall n, In n (ids t) ->
+  (forall p, a_parent t n = Some p ->
+     exists i, a_index t n = Some i /\ nth_error (a_children t p) i = Some n /\ NoDup (a_children t p))
+  /\ (forall p, In p (ids t) -> (a_parent t n = Some p <-> In n (a_children t p)))
+  /\ (forall m, In m (ids t) -> (a_next_sibling t n = Some m <-> a_prev_sibling t m = Some n))
+  /\ a_descendants t n = flat_map (fun k => k :: a_descendants t k) (a_children t n)
+  /\ rev (a_preceding t n) ++ n :: a_following t n = ids t
+  /\ ~ In n (a_preceding t n) /\ ~ In n (a_following t n)
+  /\ (forall x, In x (a_preceding t n) -> ~ In x (a_following t n)).
+Proof. exact tree_consistency. Qed.
+Print Assumptions C05_consistency.
+
+(* indexed access agrees with the child iteration for negative indices too *)
+Theorem C05_negative_index : forall (l : list nid) i, (i < length l)%nat ->
+  py_index l (Z.of_nat i - Z.of_nat (length l)) = nth_error l i /\ py_index l (Z.of_nat i) = nth_error l i.
+Proof. intros l i H. split; [exact (py_index_neg l i H)|exact (py_index_nonneg l i H)]. Qed.
+Print Assumptions C05_negative_index.
+
+(* non-vacuity: <r>a b<x>c</x>d e<!-- --></r> with two chained text nodes in the text slot and in a tail slot *)
+Definition ex_tree : cel :=
+  CEl 0 (KTag [] [114%N] []) None
+      {| ch_head := Some 1%N; ch_slot := Some [97%N]; ch_app := [{| t_id := 2%N; t_s := [98%N] |}] |}
+      [(CEl 3 (KTag [] [120%N] []) None {| ch_head := Some 4%N; ch_slot := Some [99%N]; ch_app := [] |} [],
+        {| ch_head := Some 5%N; ch_slot := Some [100%N]; ch_app := [{| t_id := 6%N; t_s := [101%N] |}] |});
+       (CEl 7 (KComment []) None no_chain [], no_chain)].
+Example C05_example_wf : el_ok ex_tree = true /\ nodupb (cel_ids ex_tree) = true.
+Proof. vm_compute. split; reflexivity. Qed.
+Example C05_example_descendants :
+  c_iterate_descendants ex_tree ftrue ftrue 0%N = Ok [1; 2; 3; 4; 5; 6; 7]%N
+  /\ c_iterate_preceding_siblings ex_tree ftrue ftrue 7%N = Ok [6; 5; 3; 2; 1]%N
+  /\ c_fetch_following_sibling ex_tree ftrue (fun i => N.eqb i 7) 1%N = Ok (Some 7%N)
+  /\ c_getitem ex_tree ftrue 0%N (-2)%Z = Ok 6%N.
+Proof. vm_compute. repeat split; reflexivity. Qed.
